@@ -369,6 +369,67 @@ def step_witness(w, s):
             "gates": s["gates"]}
 
 
+def proc_state(proc):
+    """what a processor holds: label, time grid and coefficients of every pulse, and the reported global phase"""
+    return ([(p.label, None if p.tlist is None else np.array(p.tlist, dtype=float).copy(),
+              None if p.coeff is None else np.array(p.coeff, dtype=float).copy()) for p in proc.pulses],
+            float(getattr(proc, "global_phase", 0.0)))
+
+
+def same_state(a, b):
+    (pa, fa), (pb, fb) = a, b
+    if fa != fb or len(pa) != len(pb):
+        return False
+    for (la, ta, ca), (lb, tb, cb) in zip(pa, pb):
+        if la != lb or (ta is None) != (tb is None) or (ca is None) != (cb is None):
+            return False
+        if (ta is not None and not np.array_equal(ta, tb)) or (ca is not None and not np.array_equal(ca, cb)):
+            return False
+    return True
+
+
+REFUSALS = ("too_large", "measure")
+
+
+def refused_circuit(N, gates, kind):
+    """a circuit the processor must refuse: one qubit more than the processor has, or a measurement in it"""
+    from qutip_qip.circuit import QubitCircuit
+    if kind == "too_large":
+        qc = build_circuit(N + 1, gates, p8=False)
+        qc.add_gate("CNOT", controls=[0], targets=[N])
+        return qc
+    qc = build_circuit(N, gates, p8=False)
+    qc.add_measurement("M0", targets=[0], classical_store=0)
+    return qc
+
+
+def refusable(s):
+    """the load of this step may be refused: a gate name outside the accepted set, or an explicit refusal kind"""
+    return s.get("refuse") in REFUSALS or any(g[0] not in SHAPE for g in s["gates"])
+
+
+def after_refusal(proc, before, Vprev, what):
+    """CONTRACT of a refused load: load_circuit raised - the processor holds exactly what it held before the call (pulses and
+    reported global phase), so its propagator x phase is still the unitary of the circuit loaded last (identity if none)"""
+    if not same_state(before, proc_state(proc)):
+        try:
+            d = float(np.abs(run_product(proc) - Vprev).max())
+            extra = f"; its propagator x reported phase now differs from the unitary of the circuit loaded last by {d:.3g}"
+        except Exception as e:
+            extra = f"; run_analytically now raises {type(e).__name__}"
+        now = proc_state(proc)
+        return True, (f"{what}: the REFUSED load changed the processor - before: {len(before[0])} pulse(s), reported phase "
+                      f"{before[1]:.6g}; after: {len(now[0])} pulse(s), reported phase {now[1]:.6g}" + extra)
+    try:
+        d = float(np.abs(run_product(proc) - Vprev).max())
+    except Exception as e:
+        return True, f"{what}: after the refused load run_analytically raises {type(e).__name__}: {str(e)[:80]}"
+    if d > 1e-9:
+        return True, (f"{what}: after the refused load the propagator x reported phase differs from the unitary of the circuit "
+                      f"loaded last by {d:.3g}")
+    return False, ""
+
+
 def check_history(w):
     """witness kind 'history': several circuits loaded one after the other on ONE processor instance (the same circuit again,
     different circuits alternately, optionally through run_state(qc=...) or with one compiler object handed to every load).
@@ -380,15 +441,30 @@ def check_history(w):
     import qutip
     from qutip_qip.compiler import SpinChainCompiler
     try:
-        Vs = [build_circuit(N, s["gates"], p8=False).compute_unitary().full() for s in steps]
-        qcs = [build_circuit(N, s["gates"], p8=False, form=w.get("form"), cont=w.get("cont")) for s in steps]
+        Vs = [None if s.get("refuse") in REFUSALS else build_circuit(N, s["gates"], p8=False).compute_unitary().full() for s in steps]
+        qcs = [refused_circuit(N, s["gates"], s["refuse"]) if s.get("refuse") in REFUSALS else
+               build_circuit(N, s["gates"], p8=False, form=w.get("form"), cont=w.get("cont")) for s in steps]
     except Exception as e:
         return False, f"circuit not constructible / no unitary ({type(e).__name__})"
     proc = make_processor(setup, N, w.get("params"))
     shared = SpinChainCompiler(N, proc.params, setup=setup) if w.get("compiler") == "shared" else None
+    Vprev = np.eye(2 ** N, dtype=complex)
     for k, (s, qc, V) in enumerate(zip(steps, qcs, Vs)):
         how = "run_state(init_state, qc=qc, analytical=True)" if s.get("via") == "run_state" else \
               f"load_circuit(qc, schedule_mode={s.get('mode')!r}" + (", compiler=<the same compiler object>)" if shared else ")")
+        if refusable(s):
+            before = proc_state(proc)
+            try:
+                with SC.patched(None):
+                    proc.load_circuit(qc, schedule_mode=s.get("mode"), **({"compiler": shared} if shared is not None else {}))
+            except Exception as e:
+                f, d = after_refusal(proc, before, Vprev, f"step {k + 1} of {len(steps)} on ONE {setup}({N}) processor, {how} "
+                                     f"raises {type(e).__name__} ({s.get('refuse') or 'gate outside the accepted set'})")
+                if f:
+                    return True, d
+                continue
+            if V is None:
+                return False, f"the circuit of step {k + 1} ({s.get('refuse')}) is not refused: outside the class of this witness"
         try:
             with SC.patched(None):
                 if s.get("via") == "run_state":
@@ -409,6 +485,7 @@ def check_history(w):
                           f"loaded in this step by {d:.3g}" +
                           (f"; the same circuit was loaded before in step(s) {same}" if same else "") +
                           ("; on a fresh processor the same load is exact" if not f1 else "; a fresh processor fails as well"))
+        Vprev = V
     return False, f"every one of the {len(steps)} loads on one processor reproduces the unitary of its circuit"
 
 
@@ -490,6 +567,7 @@ def check_live(w):
     proc = make_processor(setup, N, w.get("params"))
     shared = SpinChainCompiler(N, proc.params, setup=setup) if w.get("compiler") == "shared" else None
     k, told = 0, []
+    Vprev = np.eye(2 ** N, dtype=complex)
     for op in w["ops"]:
         if op["op"] != "load":
             try:
@@ -502,6 +580,24 @@ def check_live(w):
         k += 1
         how = (f"load_circuit(qc, schedule_mode={op.get('mode')!r}" + (", compiler=<the same compiler object>)" if shared else ")")
                if op.get("via") != "run_state" else "run_state(init_state, qc=qc, analytical=True)")
+        if refusable(x) or op.get("refuse") in REFUSALS:
+            before = proc_state(proc)
+            try:
+                qr = refused_circuit(N, x["gates"], op["refuse"]) if op.get("refuse") in REFUSALS else qc
+                with SC.patched(None):
+                    proc.load_circuit(qr, schedule_mode=op.get("mode"), **({"compiler": shared} if shared is not None else {}))
+                refused = False
+            except Exception as e:
+                refused = True
+                f, d = after_refusal(proc, before, Vprev, f"load {k} of {len(loads)} of ONE circuit object on ONE {setup}({N}) processor "
+                                     f"(edits so far: {told or 'none'}), {how} raises {type(e).__name__} "
+                                     f"({op.get('refuse') or 'gate outside the accepted set'})")
+                if f:
+                    return True, d
+            if refused:
+                continue
+            if op.get("refuse") in REFUSALS:
+                return False, f"load {k} ({op.get('refuse')}) is not refused: outside the class of this witness"
         try:
             with SC.patched(None):
                 if op.get("via") == "run_state":
@@ -524,6 +620,7 @@ def check_live(w):
                           f"included) differs from the unitary of the circuit as it is now by {d:.3g}" +
                           ("; a fresh circuit with the same gates on a fresh processor is exact" if not f1
                            else "; a fresh circuit / processor fails as well"))
+        Vprev = V
     return False, f"every one of the {len(loads)} loads of the edited circuit object reproduces its current unitary"
 
 
@@ -787,7 +884,7 @@ class C06(PropertyCheck):
     theorems = ["QipVerif.C06." + t for t in (
         "tables_tie", "rot_calibrated", "iswap_calibrated", "sqrtiswap_calibrated", "closed_forms_are_groups",
         "label_connects", "label_connects_iff", "C06_counterexample_label",
-        "phase_accumulated", "load_ignores_history", "end_to_end_partial",
+        "phase_accumulated", "load_ignores_history", "refused_load_keeps_state", "end_to_end_partial",
         "propagator_is_exponential", "rot_calibrated_exp", "iswap_calibrated_exp", "sqrtiswap_calibrated_exp",
         "end_to_end_exp_partial", "end_to_end_pulses_partial", "end_to_end_pulses_scheduled_partial",
         "end_to_end_pulses_model_partial")] + [
@@ -879,6 +976,10 @@ class C06(PropertyCheck):
         "py/props/c06.py harness; numpy/scipy expm inside run_analytically (runtime numerics, 1e-9 band)",
     ]
     assumptions = ["hardware strengths are non-zero (the property says positive)",
+                   "a REFUSED load (load_circuit raises: more qubits than the processor, a gate without decomposition, a "
+                   "measurement, an unknown label) leaves the processor exactly as before the call - pulses and reported global "
+                   "phase (Model/SpinChainSched.afterLoad, theorem refused_load_keeps_state); the property is then judged against "
+                   "the circuit loaded last: compared after every refused step of the histories",
                    "circuits consist of library gates without classical controls and contain no measurement",
                    "end_to_end_partial: hypothesis RouteStageDen (routing stage preserves denG, as in C13); PHASEGATE with a fixed "
                    "angle is a multiple of pi/4 (C03's phOK); DepRespected is C11's dep_respected for the start times (not re-proved here)",
@@ -1194,8 +1295,10 @@ class C06(PropertyCheck):
                       sorted({"edit=" + o["op"] for o in live["script"] if o["op"] != "load"}) if live is not None else []))
             proc = make_processor(setup, N, params)
             shared = SpinChainCompiler(N, proc.params, setup=setup) if ck == "shared" else None
+            Vlast = np.eye(2 ** N, dtype=complex)
             for k, (mode, gates, via) in enumerate(steps):
                 o, dn = answers[(hi, k)], dens[di + k]
+                before = proc_state(proc)
                 st, mph, mnat, mins = parse_load(o)
                 mst = T_ERR.get(st, st) if st.startswith("err transpile:") else st
                 try:
@@ -1226,6 +1329,14 @@ class C06(PropertyCheck):
                 what = None
                 if mst != ist:
                     what = (mst, ist, "verdict of the load")
+                elif st != "ok":
+                    # REFUSED by model and code alike: the model's processor keeps the result of the last successful load
+                    # (Model/SpinChainSched.afterLoad) - pulses and reported phase bit-exact as before the call, same unitary
+                    res.hist["refused loads: processor state compared"] = res.hist.get("refused loads: processor state compared", 0) + 1
+                    f, dd = after_refusal(proc, before, Vlast, "refused load")
+                    if f:
+                        what = ("processor unchanged by a refused load (pulses, reported phase, propagator of the circuit loaded last)",
+                                dd[:400], "state of the processor after a REFUSED load")
                 elif st == "ok":
                     if abs(proc.global_phase - float(mph) * PI) > 1e-12 * max(1, abs(float(mph) * PI)):
                         what = (f"{rs(mph)}*pi", proc.global_phase, "reported global phase")
@@ -1255,6 +1366,13 @@ class C06(PropertyCheck):
                             if d is not None and d > 1e-9:
                                 what = ("exact circuit unitary (drv_gates den)", f"max entry difference {d:.3g}",
                                         "run_analytically product (global phase included) vs exact unitary")
+                        if V is not None:
+                            Vlast = V
+                        else:
+                            try:
+                                Vlast = build_circuit(N, gates).compute_unitary().full()
+                            except Exception:
+                                pass
                 if what:
                     res.disagree(inp, what[0], what[1], f"history, step {k + 1} of {len(steps)}: " + what[2], w)
                     break
@@ -1268,7 +1386,13 @@ class C06(PropertyCheck):
         pool = []
         for _ in range(rng.randint(1, 3)):
             r = rng.random()
-            if r < 0.12:
+            if r < 0.1 and N >= 2:
+                rname = rng.choice(["BERKELEY", "CZ", "SQRTSWAP", "CY", "S", "T"])     # refused: the processor keeps what it holds
+                nc, nt, par = SHAPE_REFUSED[rname]
+                qs = rng.sample(range(N), nc + nt)
+                gs = [g for g in (self._rand_gate(rng, N, names, True, False) for _ in range(rng.randint(0, 2))) if g] + \
+                     [[rname, qs[:nt], qs[nt:], None]]
+            elif r < 0.16:
                 gs = []                                        # the empty circuit: nothing of the previous load may survive
             elif r < 0.2:
                 gs = [["GLOBALPHASE", [], [], 2 * rng.choice([1, 3, -2, 5])]]
@@ -1304,6 +1428,15 @@ class C06(PropertyCheck):
             N = max(1, nc + nt)
             g = [name, list(range(nt)), list(range(nt, nt + nc)), (6 if par else None)]
             out.append(("linear", N, None, "fresh", [("ASAP", [g], None), ("ASAP", [g], None)]))
+        # a REFUSED load in between (a gate outside the accepted set): the processor keeps circuit A and its phase
+        A = [["X", [0], [], None], ["CNOT", [1], [0], None], ["RY", [1], [], -2]]
+        for setup in ("linear", "circular"):
+            for ck in ("fresh", "shared"):
+                for rname in ("BERKELEY", "CZ", "SQRTSWAP", "T"):
+                    nc, nt, par = SHAPE_REFUSED[rname]
+                    bad = [["RX", [0], [], 2], [rname, list(range(nt)), list(range(nt, nt + nc)), None]]
+                    out.append((setup, 2, None, ck, [("ASAP", A, None), ("ALAP", bad, None), (None, bad, None), ("ASAP", A, None)]))
+            out.append((setup, 2, None, "fresh", [("ASAP", [["BERKELEY", [0, 1], [], None]], None), ("ASAP", A, None)]))
         return out
 
     # --- object forms, special angles, live circuit objects -------------------------------------------------------
@@ -1403,6 +1536,8 @@ class C06(PropertyCheck):
             [L("ASAP"), {"op": "remove", "k": 0}, {"op": "remove", "k": 0}, {"op": "remove", "k": 0}, L("ASAP"),
              {"op": "remove", "k": 0}, L("ASAP"), {"op": "append", "gate": ["RY", [0], [], 4]}, L("ALAP")],
         ]
+        scripts.append([L("ASAP"), {"op": "append", "gate": ["BERKELEY", [0, 1], [], None]}, L("ALAP"), L(None),
+                        {"op": "remove", "k": 4}, L("ASAP")])
         combos = ([(su, f) for su in ("linear", "circular") for f in ("name", "class", "generic")] if thorough
                   else [("linear", "class"), ("linear", "generic"), ("circular", "name")])
         for setup, form in combos:
@@ -1565,7 +1700,7 @@ class C06(PropertyCheck):
                             continue          # (5 qubits: the accepted ones are sampled by the random stream, ISWAP is kept)
                         for qs in itertools.permutations(range(N), 2):
                             cases.append((setup, N, "ASAP", None, [[name, list(qs[:nt]), list(qs[nt:]), (6 if par else None)]]))
-        self._load_cases(ctx, res, cases, "single", e2e_budget=(300 if ctx.thorough else 12))
+        self._load_cases(ctx, res, cases, "single", e2e_budget=(300 if ctx.thorough else 8))
         res.exhaustive = True
         res.notes.append(f"exhaustive: the coupling-label rule for every ordered pair of distinct qubits on both topologies, "
                          f"2..{40 if ctx.thorough else 12} qubits ({nlab} pairs); every placement (ordered, any distance) of every "
@@ -1580,9 +1715,12 @@ class C06(PropertyCheck):
         cases = []
         for i in range(n_rand):
             r = rng.random()
-            names = two if r < 0.6 else (ACCEPTED if r < 0.85 else ["RX", "RZ", "RY", "ISWAP", "SQRTISWAP", "GLOBALPHASE", "PHASEGATE"])
+            # (quick tier: circuits with TOFFOLI / FREDKIN - a load of them takes up to 1 s - in 13 % instead of 25 % of the cases;
+            # every placement of them is in the exhaustive stream and in the object-form stream)
+            names = two if r < (0.6 if ctx.thorough else 0.72) else (
+                ACCEPTED if r < 0.85 else ["RX", "RZ", "RY", "ISWAP", "SQRTISWAP", "GLOBALPHASE", "PHASEGATE"])
             cases.append(self._rand_case(rng, names, even=(rng.random() < 0.8), zero=(rng.random() < 0.5)))
-        self._load_cases(ctx, res, cases, "random", e2e_budget=(600 if ctx.thorough else 15))
+        self._load_cases(ctx, res, cases, "random", e2e_budget=(600 if ctx.thorough else 10))
         # histories: several loads on ONE processor (the same circuit again, circuits alternately, run_state(qc=...), one
         # compiler object for every load)
         hists = self._fixed_histories()
@@ -1835,6 +1973,19 @@ class C06(PropertyCheck):
                    "steps": [{"mode": "ASAP", "gates": bell, "via": "run_state"}, {"mode": "ASAP", "gates": bell, "via": "run_state"}]}
             yield {"kind": "history", "setup": setup, "N": 2, "params": None, "compiler": "fresh",
                    "steps": [{"mode": m, "gates": bell} for m in ("ASAP", "ALAP", None, "ASAP")]}
+            # a REFUSED load (one qubit too many, a measurement, a gate without decomposition) after a successful one: the
+            # processor must still hold the circuit loaded last - pulses, reported phase, propagator
+            A = [["X", [0], [], None], ["CNOT", [1], [0], None], ["RY", [1], [], -0.4]]
+            for mode in MODES:
+                for ck in (("fresh", "shared") if mode == "ASAP" else ("fresh",)):
+                    for rf in ({"refuse": "too_large", "gates": bell}, {"refuse": "measure", "gates": A},
+                               {"gates": [["RX", [0], [], 0.3], ["BERKELEY", [0, 1], [], None]]},
+                               {"gates": [["CZ", [1], [0], None]]}):
+                        yield {"kind": "history", "setup": setup, "N": 2, "params": None, "compiler": ck,
+                               "steps": [{"mode": mode, "gates": A}, dict({"mode": mode}, **rf), dict({"mode": "ASAP"}, **rf),
+                                         {"mode": mode, "gates": bell}]}
+            yield {"kind": "history", "setup": setup, "N": 2, "params": None, "compiler": "fresh",
+                   "steps": [{"mode": "ASAP", "gates": bell, "refuse": "too_large"}, {"mode": "ASAP", "gates": A}]}
         for name in ACCEPTED:
             nc, nt, par = SHAPE[name]
             N = max(1, nc + nt)
@@ -1864,6 +2015,16 @@ class C06(PropertyCheck):
                 steps.append({"mode": "ASAP", "gates": rng.choice(pool), "via": "run_state"})
             else:
                 steps.append({"mode": rng.choice(modes), "gates": rng.choice(pool)})
+        if rng.random() < 0.3:
+            k = rng.randrange(1, len(steps) + 1)
+            if rng.random() < 0.6 or base["N"] < 2:
+                rf = {"mode": rng.choice(MODES), "gates": rng.choice(pool), "refuse": rng.choice(REFUSALS)}
+            else:
+                rname = rng.choice(["BERKELEY", "CZ", "SQRTSWAP", "CY"])
+                nc, nt, par = SHAPE_REFUSED[rname]
+                qs = rng.sample(range(base["N"]), 2)
+                rf = {"mode": rng.choice(MODES), "gates": [list(g) for g in rng.choice(pool)] + [[rname, qs[:nt], qs[nt:], None]]}
+            steps.insert(k, rf)
         w = {"kind": "history", "setup": base["setup"], "N": base["N"], "params": base["params"], "compiler": ck, "steps": steps}
         if rng.random() < 0.3:
             w["form"] = rng.choice(FORMS)
@@ -1944,7 +2105,7 @@ class C06(PropertyCheck):
             f, d = check_property(w)
             if f:
                 yield w, d
-        for i in range(1200 if ctx.thorough else 90):
+        for i in range(1200 if ctx.thorough else 70):
             w = (self._rand_history_witness(ctx.rng) if i % 6 == 5 else
                  self._rand_live_witness(ctx.rng) if i % 6 == 2 else self._rand_witness(ctx.rng))
             if (w["kind"] == "load" and not w["gates"]) or self._excluded(w):
